@@ -98,6 +98,8 @@ class Interp:
         self.calls = []                # (qual) inlined
         self.depth = 0
         self.uninterpreted = set()
+        self.default_open = {}         # class qual -> attribute names that read as fresh data symbols
+        self.default_sym_kw = {}
         from . import symlib
         self.lib = symlib
         self.builtins = symlib.make_builtins(self)
@@ -148,7 +150,11 @@ class Interp:
                 continue
         return c
 
-    def instantiate(self, cls: ClassVal, args, kwargs, name=None, open_attrs=frozenset(), sym_kw=None):
+    def instantiate(self, cls: ClassVal, args, kwargs, name=None, open_attrs=None, sym_kw=None):
+        if open_attrs is None:
+            # data attributes that table loaders fill in: readable as fresh symbols on any atom
+            open_attrs = self.default_open.get(cls.qual, frozenset())
+            sym_kw = sym_kw or self.default_sym_kw.get(cls.qual)
         o = self.new_obj(name or f"{cls.name}#{len(self.heap)}", cls, open_attrs=set(open_attrs), sym_kw=sym_kw)
         init = cls.lookup("__init__")
         if init is not _MISSING:
